@@ -24,6 +24,11 @@ TARGET = os.path.join(BUILD, "target")
 # Development aid (seeded-change runs in parallel): VERIF_REPO=<copy of the repository> makes
 # this process use a private copy of the harness crate whose path dependencies point at that
 # copy, with its own target directory. The registered commands never set it: they use /repo.
+_ALT_HARNESS = os.environ.get("VERIF_HARNESS")  # development aid: a scratch copy of the harness crate
+if _ALT_HARNESS and not os.environ.get("VERIF_REPO"):
+    HARNESS_DIR = _ALT_HARNESS
+    BUILD = os.path.join(VERIF, ".build", "alt-harness")
+    TARGET = os.path.join(BUILD, "target")
 _ALT_REPO = os.environ.get("VERIF_REPO")
 if _ALT_REPO:
     _tag = "alt-" + re.sub(r"[^A-Za-z0-9]", "_", _ALT_REPO.strip("/"))
